@@ -720,6 +720,42 @@ def rule_subscript(chk, prog, tier):
     r.exhaustive = True
 
 
+# ------------------------------------------------------------------ C10.m increment / decrement
+
+def rule_incdec(chk, prog, tier):
+    r = chk.rule('C10.m', '++ and -- (prefix and postfix) need a modifiable lvalue of real or pointer-to-complete-object type: structures, pointers to void / incomplete / function types, non-lvalues and const-qualified operands are diagnosed with a diagnostic', floor=40,
+                 oracle='C11 6.5.2.4p1, 6.5.3.1p1')
+    fn = prog.require_func('mkincdecexpr', 'expr.c')
+    QC = ev(prog, 'QUALCONST')
+    OPS = ['int', 'char', 'double', 'bool', 'ptr_int', 'ptr_struct', 'ptr_void', 'ptr_incomplete', 'ptr_func', 'struct', 'enum']
+    for o in OPS:
+        for lvalue in (1, 0):
+            for qual in (0, QC):
+                for op in ('TINC', 'TDEC'):
+                    for post in (0, 1):
+                        def runner(it):
+                            w = World(prog, it=it, target='x86_64-sysv')
+                            st_ = w.mkstruct(size=8, align=4); inc = w.mkstruct(size=0, align=0); inc.obj.f[('incomplete',)] = 1
+                            ft = it.call('mktype', [ev(prog, 'TYPEFUNC'), 0]); ft.obj.f.update({('base',): w.t('int'), ('qual',): 0, ('size',): 0, ('align',): 0, ('incomplete',): 0})
+                            T = {'int': w.t('int'), 'char': w.t('char'), 'double': w.t('double'), 'bool': w.t('bool'), 'ptr_int': w.mkptr(w.t('int')), 'ptr_struct': w.mkptr(st_), 'ptr_void': w.mkptr(w.t('void')),
+                                 'ptr_incomplete': w.mkptr(inc), 'ptr_func': w.mkptr(ft), 'struct': st_, 'enum': w.mkenum(w.t('uint'))}
+                            x = w.temp(T[o], 'x'); x.obj.f[('lvalue',)] = lvalue; x.obj.f[('qual',)] = qual
+                            it.models.update({'xmalloc': lambda i2, a, e: Ptr(Obj('heap@%s' % e.get('line'), 'heap'), ()),
+                                              'error': lambda i2, a, e: (_ for _ in ()).throw(Terminal('error', cmodel.fmt_of(i2, a, 1))),
+                                              'fatal': lambda i2, a, e: (_ for _ in ()).throw(Terminal('fatal', cmodel.fmt_of(i2, a, 0)))})
+                            e = it.call(fn, [ev(prog, op), x, post])
+                            return it.load(e.obj, ('type',)).obj is T[o].obj and it.load(e.obj, ('base',)).obj is x.obj and it.load(e.obj, ('op',)) == ev(prog, op) and bool(it.load(e.obj, ('u', 'incdec', 'post'))) == bool(post)
+                        runs = explore(prog, runner, {}, max_runs=4, on_unsupported='keep')
+                        if len(runs) != 1 or runs[0].outcome == 'unsupported':
+                            raise AnalysisBroken('mkincdecexpr %s: %s' % (o, runs[0].detail if runs else 'no run'))
+                        ok = lvalue and not qual and o in ('int', 'char', 'double', 'bool', 'ptr_int', 'ptr_struct', 'enum')
+                        run = runs[0]
+                        key = 'incdec:%s%s%s,%s%s' % ('' if post else op[1:].lower() + ' ', o, ' ' + op[1:].lower() if post else '', 'lvalue' if lvalue else 'rvalue', ',const' if qual else '')
+                        if ok: r.instance(run.outcome == 'return' and run.value is True, key, 'expr.c:%s' % fn.get('line'), 'valid: expected an increment node of the operand\'s type; got %s %s' % (run.outcome, run.value if run.outcome == 'return' else run.detail))
+                        else: r.instance(run.outcome == 'terminal:error', key, 'expr.c:%s' % fn.get('line'), 'constraint violation must be diagnosed; got %s' % (run.outcome,))
+    r.exhaustive = True
+
+
 def run(chk, tier):
     from props import c01f
     prog = facts.programs()['cproc-qbe']
@@ -738,5 +774,6 @@ def run(chk, tier):
     chk.guard('C10.j', lambda: rule_assign_constraints(chk, prog, tier))
     chk.guard('C10.k', lambda: rule_redeclared(chk, prog, tier))
     chk.guard('C10.l', lambda: rule_subscript(chk, prog, tier))
+    chk.guard('C10.m', lambda: rule_incdec(chk, prog, tier))
     from props import c09
     chk.guard('C09.f', lambda: c09.rule_redecl_types(chk, prog, tier))
